@@ -38,7 +38,10 @@ func (node *ChildNode) Individual() *IndividualNode {
 		return nil
 	}
 
-	return n.(*IndividualNode)
+	// The pointer may belong to a record that is not an individual.
+	individual, _ := n.(*IndividualNode)
+
+	return individual
 }
 
 func (node *ChildNode) Father() *HusbandNode {
